@@ -252,6 +252,12 @@ def finish(prop, tier, seed, mod, merged, findings, wall, cfg, work, replay=Fals
     # replay files for violations
     rdir = Path(os.environ.get("PVM_REPLAY_DIR") or (ROOT / "replays")) / prop
     replay_paths = []
+    if not replay and rdir.exists():
+        for old in rdir.glob(f"{tier}_s{seed}_*.json"):  # witnesses of an earlier run with the same tier and seed are stale
+            try:
+                old.unlink()
+            except OSError:
+                pass
     if violations:
         rdir.mkdir(parents=True, exist_ok=True)
         seen = set()
@@ -280,6 +286,7 @@ def finish(prop, tier, seed, mod, merged, findings, wall, cfg, work, replay=Fals
         "violation_records": merged["record_count"],
         "violation_samples": [{k: v for k, v in r.items() if k != "case"} for r in violations[:5]],
         "foreign_records": len(foreign),
+        "foreign_samples": [{k: v for k, v in r.items() if k != "case"} for r in foreign[:4]],
         "inconclusive_reasons": reasons,
         "shards": cfg["shards"],
         "exhaustive": bool(getattr(mod, "EXHAUSTIVE", False)),
